@@ -193,6 +193,19 @@ func VH_C11_events() {
 	vReach("end")
 }
 
+// vhStaleSMP: what an earlier, unfinished or failed, run may have left in the
+// smp record (the state itself is set by the caller).
+func vhStaleSMP(c *Conversation, name string) {
+	if vChoose(name, 2) == 1 {
+		c.smp.secret = new(big.Int).SetBytes(vBytes(name+"secret", 2))
+		q := "old question"
+		c.smp.question = &q
+		c.smp.s1 = &smp1State{}
+		c.smp.s2 = &smp2State{}
+		c.smp.s3 = &smp3State{}
+	}
+}
+
 // H-C11-binding: the value bound into an SMP run is a collision-free hash of
 // (initiator fingerprint, responder fingerprint, session id, user secret), in
 // that order on both sides: equal secrets in one session give equal values;
@@ -225,6 +238,10 @@ func VH_C11_binding() {
 	// (the randomness source fails at once, so that only the binding step of
 	// the two calls is executed: the proof generation is the subject of VH_C11_algebra)
 	a.rnd.failAt, b.rnd.failAt = 0, 0
+	// an earlier run of the same session (failed or aborted) may have left
+	// anything behind in the smp record
+	vhStaleSMP(a.c, "staleA")
+	vhStaleSMP(b.c, "staleB")
 	smpStateExpect1{}.startAuthenticate(a.c, "", sa)
 	smpStateWaitingForSecret{}.continueMessage1(b.c, sa)
 	vAssume(vAll(a.c.smp.secret != nil, b.c.smp.secret != nil))
